@@ -66,13 +66,11 @@ CLOSURES = [(r'(?<!res)\.map_err\(\|e\| \{', '.map_err(|e: Errno| -> (q: io::Err
 
 
 def commit_gated(root):
-    """does FuseDevWriter::async_commit start with the sync commit's early return for an unbuffered writer?"""
-    with X.features({'async-io'}):
-        src = X.Source(root, F)
-        src.find_item(r'(?m)^mod async_io \{')          # the module must be enabled under async-io
-        d = src.find_fn(SC, 'async_commit')
-    body = X.mask(d['body'])
-    return re.match(r'\{\s*if !self\.buffered \{\s*return Ok\(0\);\s*\}', body) is not None
+    """The contract the abstract Writer of unit `asyncsrv` assumes for async_commit is ALWAYS the one of the sync commit (nothing is written by an
+    unbuffered writer): that is what C20 demands.  The real text of async_commit is verified against it below; a text that still writes when
+    unbuffered fails [devwrite] / [C20.async_commit.*] here.  (A first version chose the contract by probing the text for the early return;
+    a harmless statement in front of it made the probe say "ungated" and raised a false alarm - found by the benign-edit probe tools_benign.py B1.)"""
+    return True
 
 
 def twin(f, rules=(), **kw):
